@@ -233,6 +233,125 @@ theorem heralds_appended_partial (cs : Nat) (mp : NMap) (hpos : List Nat) :
    `res.dets = l.dets ++ [r.dets[posᵢ]]`, `res.cs = l.cs + #heralds`.  The monadic `compose` and the port
    loops (`transferOut`) are executable model code only; the theorem above covers the mapping part. -/
 
+/-! ## availability of the modes after a composition (history of a long-lived processor)
+
+`_check_consistency` of the *next* `add` reads the mode types the previous `add` left behind.  The modes
+appended for the heralds of an added processor must be reserved exactly like heralds declared with
+`add_herald`, and the availability of the old modes must not depend on what was plugged before. -/
+
+/-- whatever `Processor.add` accepts, the circuit size and the mode availability it leaves behind are
+`csAfter` / `connAfter` (for every mapping, every flag setting) -/
+theorem compose_conn (f1 f2 f3 : Bool) (l r : Side) (raw : RawMap) (keep : Bool) (res : Result)
+    (h : compose f1 f2 f3 l r raw keep = .ok res) :
+    res.cs = csAfter l r ∧ res.conn = connAfter l r := by
+  unfold compose at h
+  simp only [bind, Except.bind, pure, Except.pure, throw, throwThe, MonadExceptOf.throw] at h
+  repeat' split at h
+  all_goals first
+    | (cases h; done)
+    | (cases h; exact ⟨rfl, rfl⟩)
+
+/-- every mode imported for a herald of an added processor (`k ≥` old circuit size) is not connectible -/
+theorem imported_heralds_reserved (l r : Side) (hl : l.conn.length = l.cs) (hr : r.comp = false)
+    (k : Int) (hk : (l.cs : Int) ≤ k) :
+    connectible (csAfter l r) (connAfter l r) k = false := by
+  unfold connectible
+  have h0 : ¬ k < 0 := by omega
+  rw [if_neg h0]
+  split_ifs with h1
+  · rfl
+  · have hk' : l.conn.length ≤ k.toNat := by omega
+    simp only [connAfter, hr, Bool.false_eq_true, if_false]
+    rw [List.getD_eq_getElem?_getD, List.getElem?_append_right hk']
+    cases h : (List.replicate r.heralds.length false)[k.toNat - l.conn.length]? with
+    | none => rfl
+    | some b =>
+      have := List.mem_of_getElem? h
+      simp only [List.mem_replicate] at this
+      simp [this.2]
+
+/-- … and the availability of the old modes is what it was, whatever was plugged -/
+theorem old_modes_keep_availability (l r : Side) (hl : l.conn.length = l.cs) (k : Int)
+    (hk : k < (l.cs : Int)) :
+    connectible (csAfter l r) (connAfter l r) k = connectible l.cs l.conn k := by
+  unfold connectible
+  by_cases h0 : k < 0
+  · simp [h0]
+  · have h1 : ¬ k ≥ (l.cs : Int) := by omega
+    have h2 : ¬ k ≥ ((csAfter l r : Nat) : Int) := by
+      unfold csAfter; split_ifs <;> push_cast <;> omega
+    rw [if_neg h0, if_neg h0, if_neg h1, if_neg h2]
+    unfold connAfter
+    split_ifs
+    · rfl
+    · have : k.toNat < l.conn.length := by omega
+      rw [List.getD_eq_getElem?_getD, List.getD_eq_getElem?_getD, List.getElem?_append_left this]
+
+/-- a later mapping that names an imported herald mode is refused: never accepted, and with
+`UnavailableModeException` whenever its size is right -/
+theorem mapping_onto_imported_herald_rejected (l r : Side) (hl : l.conn.length = l.cs)
+    (hr : r.comp = false) (n : Nat) (d : Dict) (p : Int × Int) (hp : p ∈ d) (hk : (l.cs : Int) ≤ p.1) :
+    checkConsistency (csAfter l r) (connAfter l r) n d ≠ .ok () ∧
+    (d.length = n → checkConsistency (csAfter l r) (connAfter l r) n d = .error .unavailable) := by
+  have hd : d ≠ [] := List.ne_nil_of_mem hp
+  have hc := imported_heralds_reserved l r hl hr p.1 hk
+  constructor
+  · intro h
+    have := ((resolve_ok_iff _ _ n d hd).1 h).2.1 p hp
+    rw [hc] at this; cases this
+  · intro hn
+    exact (resolve_unavailable_iff _ _ n d hd).2 ⟨hn, p, hp, hc⟩
+
+/-- `resolve` (int, list, dict / port-name mappings alike) only returns mappings whose left modes are all
+connectible -/
+theorem resolve_keys_connectible (fixed : Bool) (l r : Side) (raw : RawMap) (d : Dict)
+    (h : resolve fixed l r raw = .ok d) : ∀ p ∈ d, connectible l.cs l.conn p.1 = true := by
+  have key : ∀ d' : Dict, checkConsistency l.cs l.conn r.m d' = .ok () →
+      ∀ p ∈ d', connectible l.cs l.conn p.1 = true := by
+    intro d' hc p hp
+    exact ((resolve_ok_iff _ _ _ d' (List.ne_nil_of_mem hp)).1 hc).2.1 p hp
+  unfold resolve at h
+  cases raw with
+  | ofInt b =>
+    simp only [bind, Except.bind, pure, Except.pure] at h
+    split at h
+    · cases h
+    · rename_i u hc
+      cases h
+      cases u
+      exact key _ hc
+  | ofList ks =>
+    simp only [bind, Except.bind, pure, Except.pure, throw, throwThe, MonadExceptOf.throw] at h
+    repeat' split at h
+    all_goals first
+      | (cases h; done)
+      | (rename_i u hc; cases h; cases u; exact key _ hc)
+  | ofDict items =>
+    simp only [bind, Except.bind, pure, Except.pure, throw, throwThe, MonadExceptOf.throw] at h
+    repeat' split at h
+    all_goals first
+      | (cases h; done)
+      | (rename_i u hc; cases h; cases u; exact key _ hc)
+
+/-- **two successive adds**: after a processor was plugged (by any mapping), no mapping the next `add`
+accepts — offset, list, dictionary or port names, for any object — touches a mode imported for its
+heralds; the next `add` sees exactly the old modes, with their old availability. -/
+theorem second_add_avoids_imported_heralds (f1 f2 f3 fixed : Bool) (l r : Side) (raw : RawMap)
+    (keep : Bool) (res : Result) (hl : l.conn.length = l.cs) (hr : r.comp = false)
+    (h : compose f1 f2 f3 l r raw keep = .ok res)
+    (l' r' : Side) (hcs : l'.cs = res.cs) (hconn : l'.conn = res.conn) (raw' : RawMap) (d : Dict)
+    (h' : resolve fixed l' r' raw' = .ok d) :
+    ∀ p ∈ d, p.1 < (l.cs : Int) ∧ connectible l.cs l.conn p.1 = true := by
+  intro p hp
+  obtain ⟨e1, e2⟩ := compose_conn f1 f2 f3 l r raw keep res h
+  have hc := resolve_keys_connectible fixed l' r' raw' d h' p hp
+  rw [hcs, hconn, e1, e2] at hc
+  have hlt : p.1 < (l.cs : Int) := by
+    by_contra hge
+    rw [imported_heralds_reserved l r hl hr p.1 (by omega)] at hc
+    cases hc
+  exact ⟨hlt, by rw [← old_modes_keep_availability l r hl p.1 hlt]; exact hc⟩
+
 /-! ## post-selection carried over -/
 
 theorem eval_mapModes (f : Nat → Nat) (ps : PS) (s : Nat → Nat) :
@@ -304,6 +423,15 @@ example : checkConsistency 4 [true, true, false, true] 2 [(0, 0), (3, 1)] = .ok 
     checkConsistency 4 [true, true, false, true] 2 [(0, 0), (2, 1)] = .error .unavailable ∧
     checkConsistency 4 [true, true, false, true] 2 [(0, 0), (3, 0)] = .error .invalid ∧
     checkConsistency 4 [true, true, false, true] 2 [(0, 0)] = .error .invalid := by decide
+
+/-- a 3-mode left processor (mode 1 heralded) receives a processor with two heralds: modes 3 and 4 are
+reserved, modes 0 and 2 stay available; a later `[4, 0]` is refused with `UnavailableModeException` -/
+example :
+    let l : Side := ⟨false, 2, 3, [true, false, true], [(1, 0)], [], [], [], [], [], none⟩
+    let r : Side := ⟨false, 1, 3, [false, true, false], [(2, 1), (0, 0)], [], [], [], [], [], none⟩
+    csAfter l r = 5 ∧ connAfter l r = [true, false, true, false, false] ∧
+    checkConsistency (csAfter l r) (connAfter l r) 2 [(4, 0), (0, 1)] = .error .unavailable ∧
+    checkConsistency (csAfter l r) (connAfter l r) 2 [(2, 0), (0, 1)] = .ok () := by decide
 
 /-- the repaired renaming on the witness of the defect: condition on right-hand mode 0 lands on mode 2 -/
 example : (renamePS true (some [1, 0]) 1 (.cond [0] .eq 1)).conds = [[2]] ∧
